@@ -9,18 +9,23 @@ Definition net_measure (n : net) : nat := length (n_chunks n) + length (concat (
 Lemma net_read_decr k n b n' :
   1 <= k -> net_read k n = (b, ENone, n') -> net_measure n' < net_measure n.
 Proof.
-  unfold net_read, net_measure. intros K. destruct (n_chunks n) as [|c r] eqn:E; [discriminate|].
+  unfold net_read, net_measure. intros K. destruct (n_chunks n) as [|c r] eqn:E;
+    [unfold net_end; destruct (n_fail n); discriminate|].
   destruct (length c <=? k) eqn:L; intros H; inversion H; subst; cbn [n_chunks concat length].
   - rewrite app_length. lia.
   - apply Nat.leb_gt in L. rewrite !app_length, skipn_length. lia.
 Qed.
 
+Lemma net_end_not_none n : net_end n <> ENone.
+Proof. unfold net_end. destruct (n_fail n); discriminate. Qed.
+
 Lemma sr_read_decr k s o s' :
-  1 <= k -> sr_read k s = (o, ENone, s') -> length (sr_pending s') < length (sr_pending s).
+  1 <= k -> sr_end s <> ENone -> sr_read k s = (o, ENone, s') ->
+  length (sr_pending s') < length (sr_pending s).
 Proof.
-  intros K R. pose proof (sr_read_split _ _ _ _ _ R) as C.
+  intros K Hn R. pose proof (sr_read_split _ _ _ _ _ R) as C.
   destruct (sr_pending s) as [|x p] eqn:E.
-  - unfold sr_read in R. rewrite E in R. discriminate.
+  - unfold sr_read in R. rewrite E in R. inversion R. congruence.
   - assert (P : 1 <= length o) by (eapply sr_read_progress; eauto; congruence).
     rewrite <- C, app_length. lia.
 Qed.
@@ -29,48 +34,50 @@ Section Termination.
   Variable enc : Type.
   Variable dec_all : enc -> bytes -> bytes.
   Variable dec_stream : enc -> list bytes -> bytes.
+  Variable dec_partial : enc -> list bytes -> bytes.
   Variable find_encoding : bytes -> option enc.
   Variable parse_ct : bytes -> ct_parse.
   Variable lookup_charset : bytes -> option enc.
-  Hypothesis dec_ok : decoder_ok dec_all dec_stream.
 
-  Notation read_all := (read_all dec_stream find_encoding).
-  Notation run := (run dec_stream find_encoding).
-  Notation b_read := (b_read dec_stream find_encoding).
-  Notation a_read := (a_read dec_stream find_encoding).
+  Notation read_all := (read_all dec_stream dec_partial find_encoding).
+  Notation run := (run dec_stream dec_partial find_encoding).
+  Notation b_read := (b_read dec_stream dec_partial find_encoding).
+  Notation a_read := (a_read dec_stream dec_partial find_encoding).
 
   Definition all_pos (sizes : list nat) : Prop := Forall (fun k => 1 <= k) sizes.
 
   Lemma fin_raw sizes : forall n,
-    all_pos sizes -> net_measure n < length sizes -> snd (read_all sizes (BRaw n)) = true.
+    all_pos sizes -> net_measure n < length sizes -> snd (read_all sizes (BRaw n)) <> ENone.
   Proof.
     induction sizes as [|k r IH]; intros n A M; [cbn in M; lia|].
     inversion A as [|? ? K A']; subst. cbn [Charset.read_all Charset.b_read].
-    destruct (net_read k n) as [[b e] n'] eqn:R. destruct e; [|reflexivity].
+    destruct (net_read k n) as [[b e] n'] eqn:R. destruct e; [|cbn [snd]; discriminate|cbn [snd]; discriminate].
     pose proof (net_read_decr _ _ _ _ K R).
     specialize (IH n' A'). destruct (read_all r (BRaw n')) as [o' f]. cbn [snd] in *.
     apply IH. cbn [length] in M. lia.
   Qed.
 
   Lemma fin_header sizes : forall s,
-    all_pos sizes -> length (sr_pending s) < length sizes -> snd (read_all sizes (BHeader s)) = true.
+    sr_end s <> ENone ->
+    all_pos sizes -> length (sr_pending s) < length sizes -> snd (read_all sizes (BHeader s)) <> ENone.
   Proof.
-    induction sizes as [|k r IH]; intros s A M; [cbn in M; lia|].
+    induction sizes as [|k r IH]; intros s Hs A M; [cbn in M; lia|].
     inversion A as [|? ? K A']; subst. cbn [Charset.read_all Charset.b_read].
-    destruct (sr_read k s) as [[b e] s'] eqn:R. destruct e; [|reflexivity].
-    pose proof (sr_read_decr _ _ _ _ K R).
-    specialize (IH s' A'). destruct (read_all r (BHeader s')) as [o' f]. cbn [snd] in *.
+    destruct (sr_read k s) as [[b e] s'] eqn:R. destruct e; [|cbn [snd]; discriminate|cbn [snd]; discriminate].
+    pose proof (sr_read_decr _ _ _ _ K Hs R). pose proof (sr_read_end_kept _ _ _ _ _ R) as KE.
+    assert (Hs' : sr_end s' <> ENone) by (rewrite KE; exact Hs).
+    specialize (IH s' Hs' A'). destruct (read_all r (BHeader s')) as [o' f]. cbn [snd] in *.
     apply IH. cbn [length] in M. lia.
   Qed.
 
   Lemma fin_detected_raw sizes : forall a,
     a_detected a = true -> a_dec a = None -> a_peek a = None ->
-    all_pos sizes -> net_measure (a_net a) < length sizes -> snd (read_all sizes (BSniff a)) = true.
+    all_pos sizes -> net_measure (a_net a) < length sizes -> snd (read_all sizes (BSniff a)) <> ENone.
   Proof.
     induction sizes as [|k r IH]; intros a D N P A M; [cbn in M; lia|].
     inversion A as [|? ? K A']; subst. cbn [Charset.read_all Charset.b_read].
     unfold Charset.a_read, a_read_detected. rewrite D, P, N.
-    destruct (net_read k (a_net a)) as [[b e] n'] eqn:R. destruct e; [|reflexivity].
+    destruct (net_read k (a_net a)) as [[b e] n'] eqn:R. destruct e; [|cbn [snd]; discriminate|cbn [snd]; discriminate].
     pose proof (net_read_decr _ _ _ _ K R).
     match goal with |- context [read_all r (BSniff ?x)] => set (a' := x) end.
     specialize (IH a' eq_refl eq_refl eq_refl A'). destruct (read_all r (BSniff a')) as [o' f].
@@ -78,49 +85,55 @@ Section Termination.
   Qed.
 
   Lemma fin_detected_dec sizes : forall a sr,
-    a_detected a = true -> a_dec a = Some sr -> a_peek a = None ->
-    all_pos sizes -> length (sr_pending sr) < length sizes -> snd (read_all sizes (BSniff a)) = true.
+    a_detected a = true -> a_dec a = Some sr -> a_peek a = None -> sr_end sr <> ENone ->
+    all_pos sizes -> length (sr_pending sr) < length sizes -> snd (read_all sizes (BSniff a)) <> ENone.
   Proof.
-    induction sizes as [|k r IH]; intros a sr D N P A M; [cbn in M; lia|].
+    induction sizes as [|k r IH]; intros a sr D N P Hs A M; [cbn in M; lia|].
     inversion A as [|? ? K A']; subst. cbn [Charset.read_all Charset.b_read].
     unfold Charset.a_read, a_read_detected. rewrite D, P, N.
-    destruct (sr_read k sr) as [[b e] sr'] eqn:R. destruct e; [|reflexivity].
-    pose proof (sr_read_decr _ _ _ _ K R).
+    destruct (sr_read k sr) as [[b e] sr'] eqn:R. destruct e; [|cbn [snd]; discriminate|cbn [snd]; discriminate].
+    pose proof (sr_read_decr _ _ _ _ K Hs R). pose proof (sr_read_end_kept _ _ _ _ _ R) as KE.
+    assert (Hs' : sr_end sr' <> ENone) by (rewrite KE; exact Hs).
     match goal with |- context [read_all r (BSniff ?x)] => set (a' := x) end.
-    specialize (IH a' sr' eq_refl eq_refl eq_refl A'). destruct (read_all r (BSniff a')) as [o' f].
+    specialize (IH a' sr' eq_refl eq_refl eq_refl Hs' A'). destruct (read_all r (BSniff a')) as [o' f].
     cbn [snd] in *. apply IH. cbn [length] in *. lia.
   Qed.
 
   Lemma fin_sniff N sizes : forall a,
     a_detected a = false -> a_dec a = None -> a_peek a = None ->
-    (forall e, length (dec_all e (concat (n_chunks (a_net a)))) <= N) ->
+    (forall en cs, concat cs = concat (n_chunks (a_net a)) ->
+                   length (stream_out dec_stream dec_partial en cs (n_fail (a_net a))) <= N) ->
     all_pos sizes -> net_measure (a_net a) + N + 1 < length sizes ->
-    snd (read_all sizes (BSniff a)) = true.
+    snd (read_all sizes (BSniff a)) <> ENone.
   Proof.
     induction sizes as [|k r IH]; intros a D Nn P B A M; [cbn in M; lia|].
     inversion A as [|? ? K A']; subst. cbn [Charset.read_all Charset.b_read].
     unfold Charset.a_read, Charset.peek_read. rewrite D.
     destruct (net_read k (a_net a)) as [[b e] n'] eqn:R.
-    destruct (net_read_concat _ _ _ _ _ R) as [C _].
+    destruct (net_read_concat _ _ _ _ _ R) as [C _]. destruct (net_read_fail_kept _ _ _ _ _ R) as [KF _].
     destruct (is_empty b) eqn:Em.
-    - apply is_empty_true in Em. subst b. cbn [app] in C. destruct e; [|reflexivity].
+    - apply is_empty_true in Em. subst b. cbn [app] in C. destruct e; [|cbn [snd]; discriminate|cbn [snd]; discriminate].
       pose proof (net_read_decr _ _ _ _ K R).
       match goal with |- context [read_all r (BSniff ?x)] => set (a' := x) end.
-      assert (B' : forall e, length (dec_all e (concat (n_chunks (a_net a')))) <= N)
-        by (intros e0; subst a'; cbn [a_net]; rewrite C; apply B).
+      assert (B' : forall en cs, concat cs = concat (n_chunks (a_net a')) ->
+                     length (stream_out dec_stream dec_partial en cs (n_fail (a_net a'))) <= N)
+        by (intros e0 cs Hc; subst a'; cbn [a_net] in *; rewrite KF; apply B; rewrite Hc; exact C).
       specialize (IH a' eq_refl Nn P B' A'). destruct (read_all r (BSniff a')) as [o' f].
       cbn [snd] in *. apply IH. subst a'. cbn [a_net length] in *. lia.
     - destruct (find_encoding b) as [en|] eqn:F.
       + match goal with |- context [sr_read k ?x] => set (sr := x) end.
         assert (Hp : length (sr_pending sr) <= N).
-        { subst sr. cbn [sr_pending]. rewrite dec_ok. cbn [concat]. rewrite C. apply B. }
-        destruct (sr_read k sr) as [[o1 e2] sr'] eqn:R2. destruct e2; [|reflexivity].
-        pose proof (sr_read_decr _ _ _ _ K R2).
+        { subst sr. unfold mk_sreader. cbn [sr_pending]. rewrite KF.
+          apply (B en (b :: n_chunks n')). exact C. }
+        assert (Hs : sr_end sr <> ENone) by (subst sr; unfold mk_sreader; cbn [sr_end]; apply net_end_not_none).
+        destruct (sr_read k sr) as [[o1 e2] sr'] eqn:R2. destruct e2; [|cbn [snd]; discriminate|cbn [snd]; discriminate].
+        pose proof (sr_read_decr _ _ _ _ K Hs R2). pose proof (sr_read_end_kept _ _ _ _ _ R2) as KE.
+        assert (Hs' : sr_end sr' <> ENone) by (rewrite KE; exact Hs).
         match goal with |- context [read_all r (BSniff ?x)] => set (a' := x) end.
-        pose proof (fin_detected_dec r a' sr' eq_refl eq_refl P A') as F2.
+        pose proof (fin_detected_dec r a' sr' eq_refl eq_refl P Hs' A') as F2.
         destruct (read_all r (BSniff a')) as [o' f]. cbn [snd] in *. apply F2.
         cbn [length] in M. lia.
-      + destruct e; [|reflexivity].
+      + destruct e; [|cbn [snd]; discriminate|cbn [snd]; discriminate].
         pose proof (net_read_decr _ _ _ _ K R).
         match goal with |- context [read_all r (BSniff ?x)] => set (a' := x) end.
         pose proof (fin_detected_raw r a' eq_refl Nn P A') as F2.
@@ -130,17 +143,20 @@ Section Termination.
 
   (* every body is delivered completely within a bounded number of reads, whatever the split, the
      (positive) buffer sizes and the x/text reader's schedule *)
-  Theorem terminates disable sel resp_ae ct chunks eof_last takes sizes N :
+  Theorem terminates disable sel resp_ce ct chunks eof_last fail takes sizes N :
     all_pos sizes ->
-    (forall e, length (dec_all e (concat chunks)) <= N) ->
+    (forall en cs, concat cs = concat chunks -> length (stream_out dec_stream dec_partial en cs fail) <= N) ->
     length chunks + length (concat chunks) + N + 1 < length sizes ->
-    snd (respond dec_stream find_encoding parse_ct lookup_charset
-                 disable sel resp_ae ct chunks eof_last takes sizes) = true.
+    snd (respond dec_stream dec_partial find_encoding parse_ct lookup_charset
+                 disable sel resp_ce ct chunks eof_last fail takes sizes) <> ENone.
   Proof.
     intros A B M. unfold Charset.respond.
-    destruct (decide parse_ct lookup_charset disable sel resp_ae ct) as [|e|]; cbn [Charset.open_body].
+    destruct (decide parse_ct lookup_charset disable sel resp_ce ct) as [|e|]; cbn [Charset.open_body].
     - apply fin_raw; auto. unfold net_measure, fresh_net. cbn [n_chunks]. unfold bytes in *. lia.
-    - apply fin_header; auto. cbn [sr_pending]. rewrite dec_ok. specialize (B e). lia.
+    - apply fin_header; auto.
+      + unfold mk_sreader. cbn [sr_end]. apply net_end_not_none.
+      + unfold mk_sreader, fresh_net. cbn [sr_pending n_fail]. specialize (B e chunks eq_refl).
+        unfold stream_out in B. lia.
     - apply fin_sniff with (N := N); auto.
   Qed.
 
@@ -172,7 +188,7 @@ Section Termination.
     induction sizes as [|k r IH]; intros b P; cbn [Charset.run]; [constructor|].
     destruct (b_read k b) as [[o e] b'] eqn:R.
     pose proof (b_read_peek_clear _ _ _ _ _ P R) as P'.
-    constructor; [exact P'|]. destruct e; [apply IH; exact P' | constructor].
+    constructor; [exact P'|]. destruct e; [apply IH; exact P' | constructor | constructor].
   Qed.
 
 End Termination.
